@@ -32,6 +32,21 @@ def replay_cases(out, cases, seed):
 
 
 LEGEND = {"Module": 0, "Function": 1, "Constructor": 2}
+# the token type names of the protocol the three tags stand for, and the list a client announces in the order of the LSP
+# specification (textDocument.semanticTokens.tokenTypes)
+TAG_TYPE = {"Module": "namespace", "Function": "function", "Constructor": "type"}
+STANDARD_TOKEN_TYPES = ["namespace", "type", "class", "enum", "interface", "struct", "typeParameter", "parameter", "variable", "property",
+                        "enumMember", "event", "function", "method", "macro", "keyword", "modifier", "comment", "string", "number", "regexp", "operator"]
+
+
+def legend_of(init_response):
+    """token type index -> tag, as the server's announced legend says (a client decodes with nothing else)"""
+    try:
+        names = init_response["result"]["capabilities"]["semanticTokensProvider"]["legend"]["tokenTypes"]
+    except (KeyError, TypeError):
+        return None
+    inv = {v: k for k, v in TAG_TYPE.items()}
+    return {i: LEGEND[inv[n]] for i, n in enumerate(names) if n in inv}
 
 
 def lsp_projection(text, hl, enc="utf-16"):
@@ -146,12 +161,20 @@ def end_to_end(out, hl_path, seed, edge=True, watched=True):
     n = 0
     # one session per announcement of general.positionEncodings a client may make; tokens are numbered in the encoding the
     # session agreed on (the server's capabilities.positionEncoding, utf-16 if it announces none)
-    offers = [None, ["utf-8", "utf-16"], ["utf-32", "utf-16"]]
+    offers = [None, ["utf-8", "utf-16"], ["utf-32", "utf-16"], None]
     for oi, offer in enumerate(offers):
-      sess = lsp.Session(root, stderr_path=os.path.join(root, "stderr.log"))
+      # every other session announces the token types it understands, in the order of the LSP specification
+      caps = {"textDocument": {"semanticTokens": {"tokenTypes": STANDARD_TOKEN_TYPES, "tokenModifiers": [], "formats": ["relative"],
+                                                   "requests": {"full": True, "range": True}}}} if oi % 2 == 1 else None
+      sess = lsp.Session(root, stderr_path=os.path.join(root, "stderr.log"), caps=caps)
       try:
-        if sess.initialize(encodings=offer) is None:
+        init = sess.initialize(encodings=offer)
+        if init is None:
             raise vlib.ToolError("server did not answer initialize")
+        legend = legend_of(init)
+        if legend is None or sorted(legend.values()) != [0, 1, 2]:
+            out.report({"what": "announced legend does not name the three token types", "level": "server"}, {"capabilities": (init.get("result") or {}).get("capabilities", {}).get("semanticTokensProvider")})
+            continue
         if sess.enc not in (offer or ["utf-16"]):
             out.report({"what": "server announced a position encoding the client did not offer", "level": "server"}, {"offered": offer, "announced": sess.enc})
             continue
@@ -165,7 +188,7 @@ def end_to_end(out, hl_path, seed, edge=True, watched=True):
             if resp is None or "error" in resp:
                 out.report({"what": "semanticTokens/full failed", "level": "server"}, {"text": r["text"], "response": resp})
                 continue
-            got = decode((resp["result"] or {}).get("data", []))
+            got = [(l, c, n, legend.get(ty, -1 - ty)) for (l, c, n, ty) in decode((resp["result"] or {}).get("data", []))]
             exp = lsp_projection(r["text"], r["hl"], sess.enc)
             n += 1
             if got != exp:
@@ -179,7 +202,7 @@ def end_to_end(out, hl_path, seed, edge=True, watched=True):
             rr = sess.request("textDocument/semanticTokens/range", {"textDocument": {"uri": lsp.uri(path)},
                               "range": {"start": {"line": lines // 2, "character": 0}, "end": {"line": lines + 1, "character": 0}}})
             if rr is not None and "result" in rr:
-                sub = decode((rr["result"] or {}).get("data", []))
+                sub = [(l, c, n, legend.get(ty, -1 - ty)) for (l, c, n, ty) in decode((rr["result"] or {}).get("data", []))]
                 if [t for t in sub if t not in exp]:
                     out.report({"what": "range tokens not among the full tokens", "level": "server"}, {"text": r["text"], "got": sub, "full": exp})
       finally:
